@@ -134,6 +134,8 @@ pub fn program_corpus(tier: Tier) -> Vec<(String, &'static str)> {
             "#T(n<u64>) -> :A((n, n))\n  :A((p, q)) -> :B(p + q)\n  :B(r) => r.",
             "r := #T(1u64, 2u64)", "r := #T([1u64 2u64])", "r := #T(x) + 1u64", "#T(5u64)"] { push(s.to_string(), "definition-large", &mut v); }
   // operators in every spelling
+  // titles with front matter (every key x value form): the repository's documents do not use it
+  for d in super::c09::synthetic_documents() { push(d, "front-matter", &mut v); }
   // every operator spelling the expression grammar reads (src/syntax/src/expressions.rs), alone, with a literal operand and in a chain
   for op in ["+", "-", "*", "×", "/", "÷", "%", "^", "**", "\\", "·", "•", "⨯", "!=", "¬=", "≠", "==", "⩵", "=!=", "=¬=", "=:=", "≡", ">", "<", ">=", "≥", "<=", "≤", "||", "∨", "⋁", "&&", "∧", "⋀", "^^", "⊕", "⊻",
     "⋈", "⟕", "⟖", "⟗", "⋉", "▷", "∪", "∩", "∖", "∁", "⊆", "⊇", "⊊", "⊂", "⊋", "⊃", "∈", "∉", "Δ"] {
